@@ -24,6 +24,8 @@ type Program struct {
 	RepoDir  string
 	sums     *Summaries
 	repoQuals map[string]bool
+	fieldCands map[fieldKey]*candSet
+	fnSet      map[*ssa.Function]bool
 }
 
 // mentionsRepoType: the heap array (by its mangled name) holds objects of a type declared in the repository module.
